@@ -10,13 +10,14 @@ EXTENDS Yuvxyb, Json
 \* both dimensions at a threshold at once (HD width with an SD height): only constructors and the matrix-only encode run
 \* on these (JointFilter), the per-pixel curve stages would make 700k-pixel frames too slow for every config
 JointSizes == {<<1280, 576>>, <<1280, 480>>, <<1280, 488>>, <<1281, 577>>}
+NewNames2 == {"NewYuv", "NewRgb", "NewLin", "NewXyb", "NewHsl"}
 ThreshW == {1, 2, 1279, 1280, 1281, 1920, 3840, 4096}
 ThreshH == {1, 2, 479, 480, 481, 484, 487, 488, 489, 575, 576, 577, 720, 1080, 2160}
 \* thresholds are crossed one dimension at a time (cheap frames) plus a few joint sizes
 UnspecSizes == {<<w, h>> : w \in ThreshW, h \in {1, 2}} \cup {<<w, h>> : w \in {1, 2}, h \in ThreshH}
-               \cup {<<1279, 576>>, <<1279, 480>>} \cup JointSizes
+               \cup {<<1279, 576>>, <<1279, 480>>, <<1080, 1920>>} \cup JointSizes
 UnspecSizesQuick == {<<2, 2>>, <<1279, 2>>, <<1280, 2>>, <<1281, 1>>, <<2, 479>>, <<2, 480>>, <<1, 481>>, <<2, 484>>, <<1, 487>>, <<2, 488>>, <<1, 489>>,
-                     <<2, 576>>, <<1, 575>>, <<2, 577>>, <<2, 1080>>, <<3840, 2>>, <<2, 2160>>} \cup JointSizes
+                     <<2, 576>>, <<1, 575>>, <<2, 577>>, <<2, 1080>>, <<3840, 2>>, <<2, 2160>>, <<1080, 1920>>} \cup JointSizes
 SupportSizes == {<<2, 2>>}
 Ss00 == {<<0, 0>>}
 McNoUnspec == McAll \ {Unspec}
@@ -28,9 +29,21 @@ QuirksOff == [lin_to_yuv_raw_cfg |-> FALSE, rgb_to_yuv_panics_on_odd |-> FALSE, 
 \* RGB->YUV only needs one RGB label per target config (the matrix stage ignores them), and the float
 \* kinds need no second constructor variant
 JointFilter == (img.kind # "none" /\ <<img.w, img.h>> \in JointSizes) => last'.call = "RgbToYuv"
+\* a portrait picture of more than two million pixels whose WIDTH is below the HD threshold: encoders that split a large
+\* picture into bands must resolve Unspecified metadata from the picture, not from a band.  Only the composite encodes
+\* of float images with an Unspecified matrix run on it (2 Mpx through the curve stages is slow).
+Portrait == <<1080, 1920>>
+PortraitFilter ==
+  /\ (last'.call \in NewNames2 /\ <<last'.args.w, last'.args.h>> = Portrait) => last'.call \in {"NewLin", "NewXyb"}
+  /\ (img.kind # "none" /\ <<img.w, img.h>> = Portrait) => (last'.call \in {"LinToYuv", "XybToYuv"} /\ last'.args.mc = Unspec /\ last'.args.n = 10)
+\* 16-bit configurations (a constructor that treats depth 16 specially must still resolve the metadata) on a few sizes only
+DeepFilter ==
+  LET n == IF last'.call = "NewYuv" THEN last'.args.cfg.n ELSE IF last'.call \in {"RgbToYuv", "LinToYuv", "XybToYuv"} THEN last'.args.n ELSE 8
+      sz == IF last'.call \in NewNames2 THEN <<last'.args.w, last'.args.h>> ELSE <<img.w, img.h>>
+  IN n = 16 => sz \in {<<2, 2>>, <<2, 576>>}
 Filter ==
   /\ ~(last'.call \in {"MutatePayload", "Clone", "IntoData"})        \* accessor actions are bound by the "acc" family, not replayed here
-  /\ JointFilter
+  /\ JointFilter /\ PortraitFilter /\ DeepFilter
   /\ (last'.call = "RgbToYuv" => img.tc = ResolveRgbTc(last'.args.tc) /\ img.cp = ResolveRgbCp(last'.args.cp))
   /\ (last'.call \in {"NewYuv", "RgbToYuv", "LinToYuv", "XybToYuv"} =>
          Dividable(IF last'.call = "NewYuv" THEN last'.args.w ELSE img.w,
